@@ -35,6 +35,8 @@ SCENARIOS = [
     {"name": "network-timeout-release", "ops": ["echo"], "end": "wait", "acc_net_timeout": 0.4, "nt_response": "A-RELEASE"},
     {"name": "rejected-called-aet", "ops": [], "end": "none", "reject": True},
     {"name": "store-then-release", "ops": ["store", "echo"], "end": "release"},
+    # the local side aborts while the peer is still streaming P-DATA at it: the provider sits in Sta13 ignoring PDUs
+    {"name": "requestor-aborts-while-peer-streams", "ops": ["find-then-abort"], "end": "none", "find_n": 400},
 ]
 BY_NAME = {s["name"]: s for s in SCENARIOS}
 
@@ -129,7 +131,7 @@ def run(scn, seed=0, yields=None, raise_mask_acc=None, raise_mask_req=None, watc
         return 0x0000
 
     def on_find(event):
-        for i in range(2):
+        for i in range(scn.get("find_n", 2)):
             ds = Dataset(); ds.QueryRetrieveLevel = "PATIENT"; ds.PatientName = "N%d" % i
             yield 0xFF00, ds
 
@@ -196,6 +198,13 @@ def run(scn, seed=0, yields=None, raise_mask_acc=None, raise_mask_req=None, watc
                 elif op == "find":
                     ds = Dataset(); ds.QueryRetrieveLevel = "PATIENT"; ds.PatientName = "*"
                     res["req"].setdefault("status", []).append([getattr(s, "Status", None) for s, _ in assoc.send_c_find(ds, FIND)])
+                elif op == "find-then-abort":
+                    ds = Dataset(); ds.QueryRetrieveLevel = "PATIENT"; ds.PatientName = "*"
+                    it = assoc.send_c_find(ds, FIND)
+                    for k, (s_, _) in enumerate(it):
+                        if k >= 3:
+                            break
+                    assoc.abort()
                 elif op == "store":
                     ds = Dataset(); ds.SOPClassUID = CT; ds.SOPInstanceUID = "1.2.3.4"; ds.PatientName = "X"
                     from pydicom.uid import ImplicitVRLittleEndian
